@@ -271,6 +271,8 @@ CHECKS["C14"] = {
         {"part": "ipfsdht", "pkg": ROOT, "test": "TestVerif_C14_IpfsDHT", "quick": 1200, "thorough": 20000},
         {"part": "constructors", "pkg": ROOT, "test": "TestVerif_C14_Constructors", "quick": 300, "thorough": 3000},
         {"part": "fullrt", "pkg": "./fullrt/", "test": "TestVerif_C14_FullRT", "quick": 400, "thorough": 4000},
+        {"part": "buffered", "pkg": "./provider/buffered/", "test": "TestVerif_C14_Buffered", "quick": 600, "thorough": 10000},
+        {"part": "records", "pkg": "./records/", "test": "TestVerif_C14_Records", "quick": 400, "thorough": 6000},
         {"part": "dual", "pkg": "./dual/", "test": "TestVerif_C14_Dual", "quick": 300, "thorough": 3000},
     ],
 }
